@@ -338,21 +338,36 @@ fn fp_num(node: u32) -> std::num::NonZeroU64 {
     std::num::NonZeroU64::new(fp_of(node).parse::<u64>().unwrap()).unwrap()
 }
 
+/// runs a call into the code under test on a thread of its own; false = it did not return in time (the thread is leaked)
+fn returns_within(f: impl FnOnce() + Send + 'static, ms: u64) -> bool {
+    let t = std::thread::spawn(f);
+    let t0 = Instant::now();
+    while !t.is_finished() && t0.elapsed() < Duration::from_millis(ms) {
+        std::thread::sleep(Duration::from_micros(200));
+    }
+    t.is_finished()
+}
+
 /// on-demand: request states one by one (each must get evaluated), then run to completion
 pub fn on_demand(g: &Graph, requests: &[u32], threads: usize, patience: &[bool]) -> Value {
     let model = TableModel::new(g.clone());
     let log = NodeLog(Arc::new(Mutex::new(vec![])));
-    let c = model.clone().checker().threads(threads).visitor(log.clone()).spawn_on_demand();
+    let c = Arc::new(model.clone().checker().threads(threads).visitor(log.clone()).spawn_on_demand());
+    // a request that blocks its caller is recorded (the run then counts as not done), it does not block the harness
+    let mut stuck = false;
     let mut seen_after = vec![];
     std::thread::sleep(Duration::from_millis(3));
     let idle_visits = log.0.lock().unwrap().len();
     for (ri, r) in requests.iter().enumerate() {
-        c.check_fingerprint(fp_num(*r));
+        let (cc, fp) = (Arc::clone(&c), fp_num(*r));
+        if stuck || !returns_within(move || cc.check_fingerprint(fp), 5000) {
+            stuck = true;
+        }
         let t0 = Instant::now();
         let mut seen = false;
         // `patience` is only a hint for how long to wait (the caller expects this request to be evaluated or not); what
         // was observed is recorded either way and later snapshots still show a state that was evaluated late
-        let wait = if patience.get(ri).cloned().unwrap_or(true) { 2000 } else { 40 };
+        let wait = if stuck { 0 } else if patience.get(ri).cloned().unwrap_or(true) { 2000 } else { 40 };
         while t0.elapsed() < Duration::from_millis(wait) {
             if log.0.lock().unwrap().contains(r) {
                 seen = true;
@@ -364,9 +379,12 @@ pub fn on_demand(g: &Graph, requests: &[u32], threads: usize, patience: &[bool])
     }
     let before_rtc = log.0.lock().unwrap().clone();
     let done_before = c.is_done();
-    c.run_to_completion();
+    let cc = Arc::clone(&c);
+    if stuck || !returns_within(move || cc.run_to_completion(), 5000) {
+        stuck = true;
+    }
     let t0 = Instant::now();
-    while !c.is_done() && t0.elapsed() < Duration::from_secs(10) {
+    while !stuck && !c.is_done() && t0.elapsed() < Duration::from_secs(10) {
         std::thread::sleep(Duration::from_micros(300));
     }
     std::thread::sleep(Duration::from_millis(2));
@@ -384,7 +402,7 @@ pub fn on_demand(g: &Graph, requests: &[u32], threads: usize, patience: &[bool])
         .collect();
     discs.sort_by_key(|d| d["name"].as_str().unwrap().to_string());
     json!({"requests": requests, "threads": threads, "idle_visits": idle_visits, "steps": seen_after, "before_rtc": before_rtc,
-           "done_before_rtc": done_before, "is_done": c.is_done(), "visited": visited, "unique": c.unique_state_count(),
+           "done_before_rtc": done_before, "is_done": c.is_done() && !stuck, "stuck": stuck, "visited": visited, "unique": c.unique_state_count(),
            "total": c.state_count(), "discoveries": discs})
 }
 
